@@ -340,13 +340,14 @@ fn header_kind(spec: &HeaderSpec) -> &'static str {
                 "header-unsampled"
             }
         }
-        HeaderSpec::Invalid { flags } => {
-            if flags & 1 == 1 {
-                "header-invalid-flag-01"
-            } else {
-                "header-invalid-flag-00"
-            }
-        }
+        HeaderSpec::Invalid { flags, trace, span } => match (trace.is_some(), span.is_some(), flags & 1 == 1) {
+            (false, false, true) => "header-invalid-flag-01",
+            (false, false, false) => "header-invalid-flag-00",
+            (true, _, true) => "header-invalid-zero-parent-id-flag-01",
+            (true, _, false) => "header-invalid-zero-parent-id-flag-00",
+            (_, _, true) => "header-invalid-zero-trace-id-flag-01",
+            (_, _, false) => "header-invalid-zero-trace-id-flag-00",
+        },
         HeaderSpec::SameTrace { .. } => "header-same-trace",
     }
 }
@@ -488,6 +489,10 @@ impl<'a> Oracle<'a> {
                         "header-unsampled" => "setup-header-unsampled",
                         "header-invalid-flag-01" => "setup-header-invalid-flag-01",
                         "header-invalid-flag-00" => "setup-header-invalid-flag-00",
+                        "header-invalid-zero-parent-id-flag-01" => "setup-header-invalid-zero-parent-id-flag-01",
+                        "header-invalid-zero-parent-id-flag-00" => "setup-header-invalid-zero-parent-id-flag-00",
+                        "header-invalid-zero-trace-id-flag-01" => "setup-header-invalid-zero-trace-id-flag-01",
+                        "header-invalid-zero-trace-id-flag-00" => "setup-header-invalid-zero-trace-id-flag-00",
                         _ => "setup-header-same-trace",
                     };
                     (&setup_outer, setup_via)
@@ -595,6 +600,25 @@ impl<'a> Oracle<'a> {
                     format!("new-trace-without-ids:{}", where_),
                     format!("node {} starts a new trace but its current traceparent is {}", node.id, got.show()),
                 );
+            }
+            // nothing is inherited from an invalid header: not its (lone) trace id, not its parent id
+            if (outer.trace.is_some() && got.trace == outer.trace) || (outer.span.is_some() && got.span == outer.span) {
+                // one compact signature per header shape (no node kind / runtime in it)
+                self.found.push((
+                    format!(
+                        "C18:new-trace-inherits-ids-from-invalid-header:{}:flag-{}",
+                        if outer.trace.is_some() { "trace-id-of-a-zero-parent-id-header" } else { "parent-id-of-a-zero-trace-id-header" },
+                        if outer.sampled() { "01" } else { "00" }
+                    ),
+                    format!(
+                        "node {} ({}) starts a new trace under the invalid header {} but its current traceparent is {}",
+                        node.id,
+                        where_,
+                        outer.show(),
+                        got.show()
+                    ),
+                ));
+                self.no_env_suffix.insert(self.found.len() - 1);
             }
             if let Some(s) = got.span {
                 self.roles.insert(s, (node.id, Role::NewTrace, via));
